@@ -1,0 +1,36 @@
+// Verification hook (compiled only under `--cfg flacenc_verif`).
+//
+// This module is not part of the library proper. It lets an external
+// monitoring harness observe (and delay) the scheduling points of the
+// multi-thread encoder and count which internal code paths were taken.
+// With the cfg flag off, nothing in this file nor any of its call sites is
+// compiled.
+
+use std::sync::OnceLock;
+
+/// Callback type: `(site, a, b)`.
+pub type Callback = Box<dyn Fn(&'static str, usize, usize) + Send + Sync>;
+
+static CALLBACK: OnceLock<Callback> = OnceLock::new();
+
+/// Installs the process-wide callback. Returns `false` if already installed.
+pub fn set(cb: Callback) -> bool {
+    CALLBACK.set(cb).is_ok()
+}
+
+/// Reports that the current thread reached `site`.
+#[inline]
+pub(crate) fn point(site: &'static str, a: usize, b: usize) {
+    if let Some(cb) = CALLBACK.get() {
+        cb(site, a, b);
+    }
+}
+
+/// Emits `site` when dropped (also while unwinding; `b` is 1 in that case).
+pub(crate) struct ExitGuard(pub &'static str, pub usize);
+
+impl Drop for ExitGuard {
+    fn drop(&mut self) {
+        point(self.0, self.1, usize::from(std::thread::panicking()));
+    }
+}
